@@ -6,7 +6,7 @@ META = {
     "property_id": "C01",
     "level": "model_checking",
     "technique": "TLA+ RLP spec (Yellow Paper app. B + typed decoding rules) model-checked with TLC over all boundary-alphabet byte strings; every enumerated string replayed on rlp.DecodeBytes/Stream/Split*; recorded random encode/decode calls validated against RLPTrace.tla",
-    "text": "RLP.tla defines Enc/Dec, header canonicality and typed views (uints, big/uint256, bool, byte slices/arrays, strings, slices, arrays, structs incl. nil-tagged pointers, raw values, interface{}). TLC checks on every byte string over the boundary alphabet {00,01,37,38,7f,80,81,82,b7..bf,c0..c2,f7..f9,ff} (plus 55/56/255/256-byte fill blocks) that whatever a view accepts re-encodes to the input, that re-decoding is stable, and that Split/SplitString/SplitList/SplitUint64/CountValues agree with the decoder; it prints the verdict of 25 typed views, the stream walk and the raw helpers for every string and the driver executes all of them on package rlp (accept/reject, reason class, value, boundaries, re-encoding). Random typed values, their encodings, byte mutations and single non-minimal-header re-encodings are recorded from the real code and each call is checked by TLC against the same operators.",
+    "text": "RLP.tla defines Enc/Dec, header canonicality and typed views (uints, big/uint256, bool, byte slices/arrays, strings, slices, arrays, structs incl. nil-tagged pointers, raw values, interface{}). TLC checks on every byte string over the boundary alphabet {00,01,37,38,7f,80,81,82,b7..bf,c0..c2,f7..f9,ff} (plus 55/56/255/256-byte fill blocks) that whatever a view accepts re-encodes to the input, that re-decoding is stable, and that Split/SplitString/SplitList/SplitUint64/CountValues agree with the decoder; it prints the verdict of 25 typed views, 11 typed Stream read methods, the stream walk, the raw helpers and the list iterator for every string and the driver executes all of them on package rlp (accept/reject, reason class, value, boundaries, re-encoding). Random typed values, their encodings, byte mutations and single non-minimal-header re-encodings are recorded from the real code and each call is checked by TLC against the same operators.",
     "note": "Trusts TLC, the type-directed abstraction of Go values to item trees in harness/cmd/c01/rlpbind (integers as minimal big-endian bytes), the mapping of rlp errors to four coarse classes. Struct tags optional/tail and custom DecodeRLP methods are outside the property. RawValue is modelled as the code documents it (outer header checked, content not interpreted).",
     "design_ref": "3.1 C01",
 }
